@@ -90,6 +90,10 @@ func genAcceptCase(t *rapid.T) acceptCase {
 		c.Text = sb.String()
 	case "boundary_length":
 		c.Cfg = smallCfg(t, legacy)
+		if rapid.IntRange(0, 4).Draw(t, "len0") == 0 {
+			// a maximum length of zero is a configuration Validate accepts: only the empty program fits
+			c.Cfg.Length = 0
+		}
 		l := int(c.Cfg.Length)
 		n := rapid.SampledFrom([]int{l - 1, l, l + 1, 2 * l, l + 2}).Draw(t, "n")
 		if n < 0 {
@@ -178,7 +182,7 @@ func judgeAcceptCase(c acceptCase, rec *hx.Rec) string {
 	return ""
 }
 
-const c06Rule = "inputs: valid programs (C03 generator), 1..4 token/byte-level mutations of them, token soup from the Redcode vocabulary, boundary programs (ORG/END at -1,0,len-1,len,len+1,... literally or via label arithmetic; length Length-1, Length, Length+1, 2*Length written out or via FOR under Length 1..6), and '94-flavoured instructions (all opcodes, modifiers, 8 modes) assembled mostly under ICWS'88. Whenever CompileWarrior succeeds: every field < core size, 0 <= entry < len (or empty and 0), len <= configured maximum length, opcode/modifier/modes defined, and under ICWS'88 every instruction is a row of an independently written '88 table with the implied modifier. Non-trivial: accepted and not from the plain valid class; distinct by case hash."
+const c06Rule = "inputs: valid programs (C03 generator), 1..4 token/byte-level mutations of them, token soup from the Redcode vocabulary, boundary programs (ORG/END at -1,0,len-1,len,len+1,... literally or via label arithmetic; length Length-1, Length, Length+1, 2*Length written out or via FOR under Length 0..6), and '94-flavoured instructions (all opcodes, modifiers, 8 modes) assembled mostly under ICWS'88. Whenever CompileWarrior succeeds: every field < core size, 0 <= entry < len (or empty and 0), len <= configured maximum length, opcode/modifier/modes defined, and under ICWS'88 every instruction is a row of an independently written '88 table with the implied modifier. Non-trivial: accepted and not from the plain valid class; distinct by case hash."
 
 func TestC06(t *testing.T) {
 	hx.Run(t, hx.Prop[acceptCase]{
